@@ -7,69 +7,8 @@ import sys
 
 HERE = os.path.dirname(os.path.dirname(os.path.abspath(__file__)))
 
-# id -> (level, technique, level text, level note, design ref)
-CHECKS = {
-    "C06": (
-        "exploration",
-        "property-based testing (Hypothesis) against a set-difference reference model",
-        "Generated store contents x used sets x modes; after each gc call the store is listed with "
-        "os.walk and compared with the independently computed set difference (removed exactly the "
-        "unused, return count, dry run, read-only refusal, survivors byte-identical). Random search "
-        "with shrinking; no proof of absence.",
-        "Trusts hashlib, os.walk and the harness's own .dir parser; in expanding mode assumes used "
-        "directories are loadable from cache_odb.",
-        "DESIGN.md 4/C06",
-    ),
-    "C04": (
-        "fault_enumeration",
-        "property-based testing (Hypothesis) with generated upload-fault / abort plans and a closure invariant monitor",
-        "Generated sets of trees sharing files x closed requests x fault plans (failing id subsets, abort before "
-        "the k-th upload) injected at the final placement call of the destination store; the closure invariant "
-        "(present .dir => every listed id present, parsed from raw bytes) is evaluated after every completed "
-        "upload, after the call, and after a fault-free retry; withheld+failed reporting and retry completion "
-        "are checked too. Random search over plans with shrinking; not exhaustive.",
-        "Faults are injected where uploads into a local store complete (os.replace/rename/link/symlink onto the "
-        "object path); an in-process BaseException models a kill; trusts hashlib and the harness listing parser.",
-        "DESIGN.md 4/C04, 3.5",
-    ),
-    "C11": (
-        "fault_enumeration",
-        "property-based testing (Hypothesis) with generated fault plans against a set-arithmetic reference",
-        "Generated source/destination contents (objects missing, present on both sides, directories with a "
-        "doubly-missing child, corrupt sources under verify) x requests (closed, expanded, shallow) x fault "
-        "plans; TransferResult is compared with new = requested & in-source - in-destination computed from "
-        "direct listings, transferred objects are re-hashed, pre-existing objects must not be re-sent, the "
-        "source must stay byte-identical.",
-        "Same injection point as C04; trusts hashlib and os.walk listings.",
-        "DESIGN.md 4/C11",
-    ),
-    "C15": (
-        "fault_enumeration",
-        "crash-point enumeration: forked child killed before each mutating audit event, over Hypothesis-generated scenarios",
-        "For each generated scenario (stage+transfer with state, index save of nested dirs, store->store transfer "
-        "with/without index, upload staging) the uninterrupted run fixes N mutating events and the reference store; "
-        "then every crash index 1..N (incl. one mid-copy point per copy) is executed in a forked child killed with "
-        "os._exit, the store and state database are audited (no protected or state-vouched mismatching object, "
-        "closed directories, next check discards leftovers), the operation is re-run and must converge to the "
-        "reference contents with every object intact and protected. Exhaustive over crash points per scenario, "
-        "sampled over scenarios.",
-        "Crash points are Python-level mutating calls seen by CPython audit hooks plus a mid-copy point; kills inside "
-        "one write(2) or inside sqlite are not modelled; tmp_fname()-shaped leftovers are allowed and only counted.",
-        "DESIGN.md 4/C15, 3.6",
-    ),
-    "C16": (
-        "exploration",
-        "schedule-controlled concurrency testing: Hypothesis-generated thread schedules at filesystem-operation yield points + perturbed multi-process runs, post-run audit",
-        "2-4 writers stage+transfer overlapping trees into one LocalHashFileDB with one state database; the harness "
-        "owns the thread schedule (one writer runs at a time, switches at every mutating audit event, mid-copy point "
-        "and stat call under the scratch root, order drawn by Hypothesis, so failures shrink and replay); a process "
-        "arm perturbs timing with drawn micro-delays. The schedule-independent oracle audits every object against "
-        "hashlib, every writer's directory object against the reference listing, protection bits and state rows.",
-        "Interleavings are explored only at harness yield points; bytecode-level and in-sqlite races are not forced; "
-        "the process arm does not replay exactly.",
-        "DESIGN.md 4/C16, 3.7",
-    ),
-}
+ENTRIES = json.load(open(os.path.join(HERE, "tools", "manifest_entries.json"), encoding="utf-8"))
+CHECKS = {k: (v["level"], v["technique"], v["text"], v["note"], v["ref"]) for k, v in ENTRIES.items()}
 
 NOT_YET = "check not built yet in this round; see DESIGN.md section 4 for the planned generated check"
 
